@@ -252,3 +252,22 @@ M('C07', 'c07-bitfield-yes', [(PRO, "    if bitfield_str == 'true':", "    if bi
 V('C07', 'c07v-version-flipped-operands', [(PRO, "if not existing or existing.version < interface.version:", "if existing is None or interface.version > existing.version:")])
 V('C07', 'c07v-inline-arg-list', [(PRO, "    arg = arg_list[arg_index]\n    return arg", "    return arg_list[arg_index]")])
 V('C07', 'c07v-enum-nested', [(PRO, "        if enum.bitfield:\n            if entry.value & arg_value:\n                entries.append(entry.name)\n        else:\n            if entry.value == arg_value:\n                entries.append(entry.name)", "        if not enum.bitfield:\n            if entry.value == arg_value:\n                entries.append(entry.name)\n        elif entry.value & arg_value:\n            entries.append(entry.name)")])
+
+# ---- C08 -----------------------------------------------------------------------------------------
+OUT = 'core/output/output.py'
+STR = 'core/output/stream.py'
+M('C08', 'c08-double-emit', [(PARSE, "                if parse:\n                    self.handle_message(conn_id, msg)", "                if parse:\n                    self.handle_message(conn_id, msg)\n                    if msg.name == 'error':\n                        self.out.unprocessed(line)")], 'C08.1')
+M('C08', 'c08-break-on-error', [(PARSE, "            except RuntimeError as e:\n                self.out.unprocessed(str(e))", "            except RuntimeError as e:\n                self.out.unprocessed(str(e))\n                if not line:\n                    break")], 'C08.3')
+M('C08', 'c08-blank-line-ends', [(PARSE, "            if line == '':\n                break\n            line = line.strip() # be sure to strip after the empty check", "            line = line.strip()\n            if line == '':\n                break")], 'C08.3')
+M('C08', 'c08-read-ahead', [(PARSE, "            line = line.strip() # be sure to strip after the empty check", "            line = line.strip() # be sure to strip after the empty check\n            if line.endswith('\\\\'):\n                line += input_file.readline().strip()")], 'C08.1')
+M('C08', 'c08-passthrough-fixed-text', [(PARSE, "        raise RuntimeError(raw)", "        raise RuntimeError('not a wayland message')")], 'C08.2')
+M('C08', 'c08-passthrough-repr', [(PARSE, "                self.out.unprocessed(str(e))", "                self.out.unprocessed(repr(e))")], 'C08.2')
+M('C08', 'c08-new-raise-in-resolve', [(MSG, "        if not self.obj.resolved():\n            self.obj = self.obj.resolve(conn)", "        if not self.obj.resolved():\n            self.obj = self.obj.resolve(conn)\n            if not self.obj.resolved():\n                raise RuntimeError('unknown target ' + str(self.obj))")], 'C08.2')
+M('C08', 'c08-supress-hides-messages', [(OUT, "    def show(self, *msg) -> None:\n        self.out.write(", "    def show(self, *msg) -> None:\n        if self.show_unprocessed or not self.verbose:\n            self.out.write(")], 'C08')
+M('C08', 'c08-supress-inverted', [("frontends/tui/arguments.py", "show_unprocessed_output = not bool(args.supress)", "show_unprocessed_output = bool(args.supress)")], 'C08.4')
+M('C08', 'c08-buffered-stream', [(STR, "    def override_write(self, string: str) -> None:\n        print(string, file=self.file)", "    def override_write(self, string: str) -> None:\n        self.pending = getattr(self, 'pending', []) + [string]\n        if len(self.pending) > 8:\n            print('\\n'.join(self.pending), file=self.file)\n            self.pending = []")], 'C08.6')
+M('C08', 'c08-cleanup-early', [(PARSE, "            if line == '':\n                break\n", "            if line == '':\n                self.cleanup()\n                break\n")], 'C08.5')
+M('C08', 'c08-unprocessed-truncates', [(OUT, "' |  ' + ' '.join(map(lambda m: str(m), msg))))", "' |  ' + ' '.join(map(lambda m: str(m), msg))[:80]))")], 'C08.4')
+M('C08', 'c08-runtimeerror-in-listener', [(CTL, "        self.all_messages.append(message)\n", "        self.all_messages.append(message)\n        if message.name == '':\n            raise RuntimeError('empty message name')\n")], 'C08.2')
+M('C08', 'c08-skip-after-error-return', [(PARSE, "                self.out.error(e)\n                parse = False", "                self.out.error(e)\n                return")], 'C08.3')
+V('C08', 'c08v-not-line', [(PARSE, "            if line == '':\n                break", "            if not line:\n                break")])
